@@ -28,6 +28,7 @@ func (P) Rule() string {
 		"SetOption calls of the six logging options; export, export-and-reset, reset; per-case op weights) run step by step on one har.Logger, or " +
 		"(b) a block of `seq` words: EVERY word over the 9-letter alphabet {req a,b,c; res a,b,c; export; export-and-reset; reset} up to length 5 (quick) / 7 (thorough), every word with a failing call " +
 		"over the 15-letter alphabet (+ failing response a,b,c; failing request a,b,c) up to length 4 / 5 and, up to renaming of the IDs, of length 5 / 6, each run on a fresh Logger, or " +
+		"(b') a `bulk N i…` history (N = 255..4098 requests, all but 1-17 completed, one export-and-reset, then a duplicate and a response for every entry left), or " +
 		"(c) a concurrent run (2-8 goroutines; random programs over own/shared IDs with slow and failing bodies, or duplicate storms: every goroutine calls about the same ID, held in its body read " +
 		"until all are in flight) checked for linearisability, the linearisation replayed by the model; " +
 		"distinct by hash of the op list; non-trivial when some export-and-reset returned at least one completed entry while keeping at least one pending entry"
@@ -79,6 +80,9 @@ func readEntry(e *har.Entry, withRes bool) (ent, string) {
 		return ent{}, "entry " + e.ID + " without request"
 	}
 	rest := strings.TrimPrefix(e.Request.URL, urlPrefix)
+	if q := strings.IndexByte(rest, '?'); q >= 0 {
+		rest = rest[:q]
+	}
 	i := strings.LastIndexByte(rest, '/')
 	if i < 0 {
 		return ent{}, "unexpected request URL " + e.Request.URL
@@ -92,7 +96,27 @@ func readEntry(e *har.Entry, withRes bool) (ent, string) {
 	}
 	o := ent{id: e.ID, rq: tag, rs: -1}
 	if withRes && e.Response != nil {
-		o.rs = e.Response.Status - 1000
+		// which RecordResponse call this is, and the status it was given, are in the headers
+		o.rs = -2
+		want := -1
+		for _, h := range e.Response.Headers {
+			switch h.Name {
+			case tagHeader:
+				if n, err := strconv.Atoi(h.Value); err == nil {
+					o.rs = n
+				}
+			case statusHeader:
+				if n, err := strconv.Atoi(h.Value); err == nil {
+					want = n
+				}
+			}
+		}
+		if o.rs == -2 {
+			return ent{}, "entry " + e.ID + ": attached response carries no operation tag"
+		}
+		if want != e.Response.Status {
+			return ent{}, fmt.Sprintf("entry %s: attached response has status %d, the recorded one had %d", e.ID, e.Response.Status, want)
+		}
 	}
 	return o, ""
 }
@@ -181,12 +205,14 @@ func (g *ledger) compare(kind string, got, want []ent) (string, string) {
 
 // sess = one Logger + the ledger + the op clock.
 type sess struct {
-	l   *har.Logger
-	g   *ledger
-	t   int
-	nt  bool // saw a non-trivial export-and-reset
-	cnt bool // bump distribution counters
-	via bool // the next export / export-and-reset / reset goes through the HTTP handlers
+	l       *har.Logger
+	g       *ledger
+	t       int
+	nt      bool  // saw a non-trivial export-and-reset
+	cnt     bool  // bump distribution counters
+	via     bool  // the next export / export-and-reset / reset goes through the HTTP handlers
+	lastGot []ent // entries of the last export / export-and-reset
+	salt    int   // varies the shapes of plain messages from one `seq` word to the next
 }
 
 // through the handlers of har_handlers.go: GET on the export handler, DELETE (?return=true) on the
@@ -303,6 +329,9 @@ func (s *sess) apply(kind, id string, m msg) (impl, fail, sig string) {
 	t := s.t
 	s.t++
 	g := s.g
+	if m.shape < 0 {
+		m.shape = s.salt + t*7 + t/97
+	}
 	switch kind {
 	case "req":
 		b := mkReqMsg(id, t, m, nil, nil)
@@ -377,6 +406,7 @@ func (s *sess) apply(kind, id string, m msg) (impl, fail, sig string) {
 			return "bad-export", bad, "export:malformed"
 		}
 		impl = showEnts(got)
+		s.lastGot = got
 		if len(got) == 0 {
 			s.count("export:empty")
 		} else {
@@ -395,6 +425,7 @@ func (s *sess) apply(kind, id string, m msg) (impl, fail, sig string) {
 			return "bad-export", bad, "xreset:malformed"
 		}
 		impl = showEnts(got)
+		s.lastGot = got
 		var want, keep []ent
 		for _, e := range g.live {
 			if e.rs >= 0 {
@@ -456,9 +487,9 @@ func letterOp(c byte) (kind, id string, m msg, ok bool) {
 	case c == 'r':
 		return "reset", "", plainMsg, true
 	case c >= '1' && c <= '3':
-		return "res", string('a' + c - '1'), msg{fault: 'r'}, true
+		return "res", string('a' + c - '1'), msg{fault: 'r', shape: -1}, true
 	case c >= '4' && c <= '6':
-		return "req", string('a' + c - '4'), msg{framed: true, fault: 'r'}, true
+		return "req", string('a' + c - '4'), msg{framed: true, fault: 'r', shape: -1}, true
 	case c == '-':
 		return "optoff", "", plainMsg, true
 	case c == '+':
@@ -494,6 +525,9 @@ func (s *sess) applyOpt(which, form, arg string) core.Result {
 
 func runSeq(w string) core.Result {
 	s := newSess(false)
+	for i := 0; i < len(w); i++ {
+		s.salt = (s.salt*131 + int(w[i])) % 9973
+	}
 	outs := make([]string, 0, len(w))
 	var fail, sig string
 	for i := 0; i < len(w); i++ {
@@ -542,22 +576,26 @@ func (e *ex) Do(op string) core.Result {
 	case (f[0] == "req" || f[0] == "res") && len(f) == 2:
 		impl, fail, sig := e.s.apply(f[0], f[1], plainMsg)
 		return core.Result{Impl: impl, Fail: fail, Sig: sig}
-	case f[0] == "reqm" && len(f) == 5 && (f[2] == "0" || f[2] == "1"):
+	case f[0] == "reqm" && (len(f) == 5 || len(f) == 6) && (f[2] == "0" || f[2] == "1"):
 		ct, ok1 := core.Unhex(f[3])
 		ft, ok2 := parseMsgFault(f[4])
-		if !ok1 || !ok2 {
+		sh, ok3 := optShape(f, 5)
+		if !ok1 || !ok2 || !ok3 {
 			return core.Result{Impl: "bad-op"}
 		}
-		impl, fail, sig := e.s.apply("req", f[1], msg{framed: f[2] == "1", ctype: string(ct), fault: ft})
+		impl, fail, sig := e.s.apply("req", f[1], msg{framed: f[2] == "1", ctype: string(ct), fault: ft, shape: sh})
 		return core.Result{Impl: impl, Fail: fail, Sig: sig}
-	case f[0] == "resm" && len(f) == 4:
+	case f[0] == "resm" && (len(f) == 4 || len(f) == 5):
 		ct, ok1 := core.Unhex(f[2])
 		ft, ok2 := parseMsgFault(f[3])
-		if !ok1 || !ok2 {
+		sh, ok3 := optShape(f, 4)
+		if !ok1 || !ok2 || !ok3 {
 			return core.Result{Impl: "bad-op"}
 		}
-		impl, fail, sig := e.s.apply("res", f[1], msg{ctype: string(ct), fault: ft})
+		impl, fail, sig := e.s.apply("res", f[1], msg{ctype: string(ct), fault: ft, shape: sh})
 		return core.Result{Impl: impl, Fail: fail, Sig: sig}
+	case f[0] == "bulk" && len(f) == 3:
+		return runBulk(f[1], f[2])
 	case f[0] == "opt" && (len(f) == 4) && (f[1] == "post" || f[1] == "body"):
 		return e.s.applyOpt(f[1], f[2], f[3])
 	case (f[0] == "export" || f[0] == "xreset" || f[0] == "reset") && len(f) == 1:
@@ -573,6 +611,92 @@ func (e *ex) Do(op string) core.Result {
 		return e.s.refused(f[1])
 	}
 	return core.Result{Impl: "bad-op"}
+}
+
+// optShape: the optional trailing shape token of reqm / resm (absent = 0, as the model reads it).
+func optShape(f []string, i int) (int, bool) {
+	if len(f) <= i {
+		return 0, true
+	}
+	n, err := strconv.Atoi(f[i])
+	return n, err == nil && n >= 0
+}
+
+// showShort: long lists are compared through a summary (kept in step with Drv/C17.lean showObsShort).
+func showShort(line string, es []ent) string {
+	if len(es) <= 8 {
+		return line
+	}
+	sum := 0
+	for _, e := range es {
+		sum = (sum*31 + e.rq*7 + e.rs + 1) % 1000003
+	}
+	one := func(e ent) string { return strings.TrimPrefix(showEnts([]ent{e}), "log ") }
+	return "log n=" + strconv.Itoa(len(es)) + " " + one(es[0]) + " .. " + one(es[len(es)-1]) + " sum=" + strconv.Itoa(sum)
+}
+
+// runBulk: `bulk N i1,i2,…` — a LARGE log on a fresh Logger: requests b0 … b(N-1); a response for
+// every one except the listed indices; export-and-reset (drains N-k entries at once); export;
+// then for every listed (still pending) entry a duplicate request and a response; export,
+// export-and-reset, export. Same oracle as everywhere; long lists are compared as summaries.
+func runBulk(ns, ps string) core.Result {
+	n, err := strconv.Atoi(ns)
+	if err != nil || n < 1 || n > 20000 {
+		return core.Result{Impl: "bad-op"}
+	}
+	pend := map[int]bool{}
+	var order []int
+	if ps != "-" {
+		for _, x := range strings.Split(ps, ",") {
+			i, err := strconv.Atoi(x)
+			if err != nil || i < 0 {
+				return core.Result{Impl: "bad-op"}
+			}
+			pend[i] = true
+			order = append(order, i)
+		}
+	}
+	s := newSess(false)
+	oks := 0
+	var outs []string
+	var fail, sig string
+	do := func(kind, id string) {
+		o, f, sg := s.apply(kind, id, plainMsg)
+		if f != "" && fail == "" {
+			fail, sig = fmt.Sprintf("bulk history (%d requests, %d left pending), op %d (%s %s): %s", n, len(order), s.t-1, kind, id, f), sg
+		}
+		if o == "ok" {
+			oks++
+			return
+		}
+		if strings.HasPrefix(o, "log ") && s.lastGot != nil {
+			o = showShort(o, s.lastGot)
+		}
+		outs = append(outs, o)
+	}
+	bid := func(i int) string { return "b" + strconv.Itoa(i) }
+	for i := 0; i < n; i++ {
+		do("req", bid(i))
+	}
+	for i := 0; i < n; i++ {
+		if !pend[i] {
+			do("res", bid(i))
+		}
+	}
+	do("xreset", "")
+	do("export", "")
+	for _, i := range order {
+		do("req", bid(i))
+		do("res", bid(i))
+	}
+	do("export", "")
+	do("xreset", "")
+	do("export", "")
+	core.Count("bulk:runs")
+	if s.nt {
+		core.Count("bulk:drain-kept-some")
+	}
+	return core.Result{Impl: "bulk ok=" + strconv.Itoa(oks) + " " + strings.Join(outs, "|"), Fail: fail, Sig: sig}
 }
 
 func (P) Nontrivial(ops []string, impl []string) bool {
@@ -628,6 +752,10 @@ func (P) Nontrivial(ops []string, impl []string) bool {
 		}
 		if f[0] == "conc" {
 			nt = nt || strings.HasPrefix(impl[i], "lin ")
+			continue
+		}
+		if f[0] == "bulk" {
+			nt = nt || strings.Contains(impl[i], "log n=")
 			continue
 		}
 		k := f[0]
